@@ -8,7 +8,7 @@ non-negative quantities, abs, clip at a non-negative bound), which survives IEEE
 from ..oblig import GOb
 from ..symint import atom, EngineError
 from ..loopcut import LoopCut
-from ..iterative import stubbed, make_svd_stub
+from ..iterative import stubbed, make_svd_stub, real_dtype
 from .. import gtensor as G
 
 PID = "C10"
@@ -53,7 +53,7 @@ def obligations(tier):
             ref = V if V is not None else x
             S = S_holder["S"]
             if S.name == "sym":
-                return G.opaque_tensor(prefix, G.axis_sizes(ref) if prefix != "ASET" else [G.flat_sizes(ref)], ref.dtype, nonneg=True)
+                return G.opaque_tensor(prefix, G.axis_sizes(ref) if prefix != "ASET" else [G.flat_sizes(ref)], (G._result_dtype(a, b, ref) if prefix == "FISTA" else ref.dtype), nonneg=True)
             import tensorly.solvers.nnls as nnls
             real = dict(HALS=nnls.hals_nnls, FISTA=nnls.fista, ASET=nnls.active_set_nnls)[prefix]
             out = real(a, b, V, **kw) if prefix == "HALS" else real(a, b, x=x, **kw)
@@ -145,7 +145,7 @@ def obligations(tier):
         import tensorly as tl_
         def tsvd_stub(M, *a, **k):
             if S.name == "sym":
-                return None, [G.opaque_tensor("SIGMA", [], "float64", nonneg=True)], None
+                return None, [G.opaque_tensor("SIGMA", [], real_dtype(M), nonneg=True)], None
             from tensorly.tenalg.svd import truncated_svd as real
             out = real(M, *a, **k)
             S.record("SIGMA", out[1][0])
